@@ -26,4 +26,4 @@ let run (input : Sexp.t) (impl : Sexp.t) : Verdict.t =
   let hit = List.exists (fun r -> r <> []) ires in
   { Verdict.agree; oracle; kf = "-"; nontrivial = List.length ops >= 3 && hit;
     cls = Printf.sprintf "ops%s_sp%d_%s" (if List.length ops < 10 then "lt10" else "ge10") (min (List.length sp) 4) (if hit then "hit" else "nohit");
-    model = Sexp.L (List.map (fun l -> Sexp.L (sorted_msgs l)) mres) }
+    model = Sexp.L (List.map (fun l -> Sexp.L (sorted_msgs l)) mres); why = "" }
